@@ -203,6 +203,16 @@ def alter(bundle, alteration, sec_type=11):
         blk['flags'] ^= r.BLKFLAG_STATUS_IF_FAIL
     elif kind == 'sec-source':
         out = edit_asb(out, sec_type, lambda asb: asb.__setitem__('src', ['dtn', '//other-source/']))
+    elif kind == 'sec-source-form':
+        # the security source written in another form: a dtn node ID without its final slash (one octet less on the
+        # wire; an implementation that normalises EIDs when decoding reads the same node)
+        def func(asb):
+            src = asb['src']
+            if src[0] == 'dtn' and isinstance(src[1], str) and src[1].endswith('/') and src[1].count('/') == 3:
+                asb['src'] = ['dtn', src[1][:-1]]
+            else:
+                asb['src'] = ['dtn', '//other-source/']
+        out = edit_asb(out, sec_type, func)
     elif kind == 'sec-scope':
         def func(asb):
             for prm in asb['params'] or []:
